@@ -745,3 +745,57 @@ pub fn configs_c18(tier: crate::registry::Tier, seed: u64) -> Vec<crate::registr
     }
     v
 }
+
+/// kernel obligation of C06: the divisibility of a coordinate vector by c is the minimum c-adic valuation of its non-zero entries
+pub struct DivVec {
+    pub n: usize,
+    pub b: i64,
+}
+
+impl Harness for DivVec {
+    fn id(&self) -> String {
+        format!("lee/DivVec/n{}/B{}", self.n, self.b)
+    }
+    fn functions(&self) -> Vec<&'static str> {
+        vec!["yui_kh::misc::{div_vec, div}"]
+    }
+    fn inputs(&self) -> Vec<InputSpec> {
+        let mut v: Vec<InputSpec> = (0..self.n).map(|i| InputSpec::boxed(&format!("v{}", i), self.b)).collect();
+        v.push(InputSpec::range("c", 2, 7));
+        v
+    }
+    fn extra_smt(&self) -> Vec<String> {
+        vec!["(or (= c 2) (= c 3) (= c 5) (= c 7))".into()]
+    }
+    fn extra_ok(&self, xs: &[BigInt]) -> bool {
+        [2, 3, 5, 7].iter().any(|p| xs[self.n] == BigInt::from(*p))
+    }
+    fn body<I: VInt>(&self, xs: &[I])
+    where
+        for<'x> &'x I: VIntOps<I>,
+    {
+        let c = &xs[self.n];
+        let v = yui_matrix::sparse::SpVec::from(xs[..self.n].to_vec());
+        let got = yui_kh::misc::div_vec(&v, c);
+        // reference: valuations by repeated exact division (the harness's own loop, executed symbolically as well)
+        let mut best: Option<i32> = None;
+        for x in &xs[..self.n] {
+            if x.is_zero() {
+                continue;
+            }
+            let mut a = x.clone();
+            let mut k = 0;
+            while (&a % c).is_zero() {
+                a = &a / c;
+                k += 1;
+            }
+            best = Some(best.map_or(k, |b: i32| b.min(k)));
+        }
+        I::oblige(&format!("div_vec = minimal valuation (got {:?}, want {:?})", got, best), VF::of_bool(got == best));
+    }
+}
+
+pub fn configs_c06_kernel() -> Vec<crate::registry::Entry> {
+    use crate::registry::entry;
+    vec![entry(DivVec { n: 2, b: 30 }, 3000, 150.0), entry(DivVec { n: 1, b: 350 }, 1500, 90.0), entry(DivVec { n: 3, b: 9 }, 3000, 150.0)]
+}
